@@ -865,6 +865,36 @@ def facts(tables):
     g = f.pop("_get")
     f["getLookups"], f["getChecks"], f["getStore"], f["getStoreAfter"] = g
 
+    # Hook.__get__ asked with an owner other than its own (`getattr(Sub, name)` finding the hook of a base class, but also
+    # `super(K, x).name` and an explicit `Base.__dict__[name].__get__(x, Sub)`): which hook object answers for that owner -
+    # always a NEW one that replaces whatever the owner class carries (False), or the one the owner class carries in its own
+    # `__dict__` already, a new one being created only when it carries none of its own (True)
+    def owner_reuse():
+        ls = tables["Hook.__get__#class"]
+        q = "Hook.__get__#class"
+        if ls[:2] != ["def(self, instance, owner)", "if self.owner != owner:"]:
+            raise Gap(f"{q}: does not start with the test `self.owner != owner`")
+        if ls[-2:] != ["if instance is None:", "  return self"] or any(_depth(x) == 0 for x in ls[2:-2]):
+            raise Gap(f"{q}: the owner test is not followed by exactly `if instance is None: return self`")
+        body = [x[2:] for x in ls[2:-2]]
+        m = re.fullmatch(r"return (v\d+)\.__get__\(instance, owner\)", body[-1]) if body else None
+        if not m:
+            raise Gap(f"{q}: the branch for another owner does not end by asking a hook object with the same arguments")
+        h = m.group(1)
+
+        def create(ind):
+            return [f"{ind}{h} := Hook()", f"{ind}{h}.__orig_class__ := self.__orig_class__",
+                    f"{ind}setattr(owner, self.name, {h})"]
+        if body[:-1] == create(""):
+            return False
+        looks = [f"{h} := owner.__dict__.get(self.name, None)", f"{h} := owner.__dict__.get(self.name)"]
+        tests = [f"if (not isinstance({h}, Hook) or {h}.owner != owner):", f"if not (isinstance({h}, Hook) and {h}.owner == owner):",
+                 f"if not isinstance({h}, Hook):"]
+        if len(body) == 6 and body[0] in looks and body[1] in tests and body[2:5] == create("  "):
+            return True
+        raise Gap(f"{q}: branch for another owner not recognised: `{' ; '.join(x.strip() for x in body)}`")
+    attempt("getOwnerReuse", owner_reuse, False)
+
     # HookHost helpers
     def member(qual):
         ls = tables[qual]
@@ -1002,6 +1032,7 @@ FACT_DOC = {
     "getChecks": ("Hook.__get__", "after `get_result`: (condition, exception raised), in order"),
     "getStore": ("Hook.__get__", "where a computed value is stored"),
     "getStoreAfter": ("Hook.__get__", "number of checks of `getChecks` that precede the store"),
+    "getOwnerReuse": ("Hook.__get__#class", "asked with another owner, the hook object that class carries in its own `__dict__` answers; a new one is created (and put on the class) only when it carries none"),
     "hasSetIn": ("HookHost.has_set", "the dictionary whose keys are tested"),
     "hasCachedIn": ("HookHost.has_cached", "the dictionary whose keys are tested"),
     "reevalMode": ("HookHost.reevaluate_cache", "what happens to the remembered names"),
@@ -1042,6 +1073,11 @@ def emit(ctx, pid, functions, fact_names, writers_of=(), members_of=(), module=F
     used = {q.partition("#")[0] for q in functions} | {FACT_DOC[n][0] for n in fact_names}
     for g in gaps:
         # a gap in a function this property does not read is the other properties' business
+        part = re.search(r"Hook\.__get__#\w+(?=:)", g[:80])
+        if part:
+            if part.group(0) in functions:
+                ctx.tie_breaks.append("translator (hooks.py): " + g)
+            continue
         if any(g.startswith(q + ":") or (": " + q + ":") in g[:80] for q in used) or not any(q + ":" in g for q in FUNCS):
             ctx.tie_breaks.append("translator (hooks.py): " + g)
     out = [f"/- GENERATED by driver/translate/hooks_skeleton.py from pyroll/core/hooks.py of the working tree on every run "
@@ -1057,7 +1093,7 @@ def emit(ctx, pid, functions, fact_names, writers_of=(), members_of=(), module=F
         out.append("")
     for n in fact_names:
         q, doc = FACT_DOC[n]
-        out.append(f"/-- pyroll/core/hooks.py:{info['lines'][q]} `{q}`: {doc} -/")
+        out.append(f"/-- pyroll/core/hooks.py:{info['lines'][q]} `{q.replace('#', '`, part `')}`: {doc} -/")
         out.append(_fact_def(n, info["facts"][n]))
         out.append("")
     if writers_of:
@@ -1100,7 +1136,7 @@ SELECTION = {
         fact_names=["functionsGenOrder", "yieldOver", "yieldGuard", "yieldReversed", "addStores", "removeStores",
                     "removeIgnoresAbsent", "callKey", "callCycleBeforeMark", "callMarkBeforeTry", "callDiscardClause",
                     "callDiscardGuard", "callDiscardInFinally", "getResultTest", "getLookups", "getChecks", "getStore",
-                    "getStoreAfter"],
+                    "getStoreAfter", "getOwnerReuse"],
         writers_of=STORES + ["_active_instances"], members_of=["HookFunction", "Hook", "_HookHostMeta"]),
     "C02": dict(
         functions=["Hook.__get__#explicit", "Hook.__get__#cached", "Hook.__get__#compute", "Hook.__set__",
@@ -1207,6 +1243,16 @@ def self_check(f, names):
         left = bool(hf.cycle)
         if left == (f["callDiscardInFinally"] and f["callDiscardGuard"] in ("unless cycle", "always")):
             bad.append(f"callDiscardClause read '{f['callDiscardClause']}', after a raising call HookFunction.cycle is {left}")
+    if "getOwnerReuse" in want:
+        base, _ = fresh()
+        sub = type("HKS", (base,), {})
+        own = sub.h0                       # the per-subclass hook object, created by this access
+        own.add_function(fn("x"))
+        base.__dict__["h0"].__get__(None, sub)      # what `super(sub, sub).h0` does
+        kept = sub.__dict__.get("h0") is own
+        if kept != f["getOwnerReuse"]:
+            bad.append(f"getOwnerReuse read {f['getOwnerReuse']}, the hook of the base class asked with the subclass as owner "
+                       f"{'keeps' if kept else 'replaces'} the hook object the subclass carries")
     if "getResultTest" in want:
         cls, hook = fresh()
         hook.add_function(fn("zero", result=0.0))
